@@ -1,2 +1,54 @@
-(* C07 -- session end. (statements to be added) *)
-From WB Require Import Base.Str Model.Key Model.Store Model.Core.
+(* C07 -- Session end buries grave goods, publishes the last will, cleans up, nothing else.
+   Statements only.  The model's do_disconnected is the ordered composition the code performs
+   (worterbuch.rs:1220-1378).  Proved here: the publish streams of the client are gone after any
+   non-crashing session end; the burial and the last will are ordinary pdelete / forced set
+   requests issued under the client's own id (so C01/C04/C08 apply to each of them); the
+   registrations used are decoded from the values stored last.  PARTIAL: the closed form
+   "state after = lastwill . bury . drop_sys (state before)" and the removal of subscriptions and
+   locks are validated by the correspondence and the session-end oracle, not yet proved in Coq. *)
+From WB Require Import Base.Str Base.Json Model.Key Model.Consts Model.Store Model.Entry Model.Core Proofs.C07Proof.
+
+Theorem C07_publish_streams_die_with_session :
+  forall s c, o_res (snd (do_disconnected s c)) <> RCrash ->
+    forall id k, In (id, k) (spub_keys (fst (do_disconnected s c))) -> fst id <> c.
+Proof. exact disconnected_drops_spub. Qed.
+Print Assumptions C07_publish_streams_die_with_session.
+
+(* table bookkeeping of the sub-steps: a burial / last-will write touches no registration table *)
+Theorem C07_burial_touches_no_table :
+  forall s c sk p,
+    spub_keys (fst (do_pdelete s c sk p)) = spub_keys s /\
+    subscriptions (fst (do_pdelete s c sk p)) = subscriptions s /\
+    ls_subscriptions (fst (do_pdelete s c sk p)) = ls_subscriptions s /\
+    locked_keys (fst (do_pdelete s c sk p)) = locked_keys s /\
+    clients (fst (do_pdelete s c sk p)) = clients s.
+Proof. exact pdelete_tables. Qed.
+Print Assumptions C07_burial_touches_no_table.
+
+Theorem C07_last_will_touches_no_table :
+  forall s c k e f,
+    spub_keys (fst (do_insert s c k e f)) = spub_keys s /\
+    subscriptions (fst (do_insert s c k e f)) = subscriptions s /\
+    ls_subscriptions (fst (do_insert s c k e f)) = ls_subscriptions s /\
+    locked_keys (fst (do_insert s c k e f)) = locked_keys s /\
+    clients (fst (do_insert s c k e f)) = clients s.
+Proof. exact insert_tables. Qed.
+Print Assumptions C07_last_will_touches_no_table.
+
+(* non-vacuity and the shape of a session end: grave goods buried, last will set over a CAS value,
+   own $SYS entries gone, the other client's registration untouched *)
+Definition gg1 := topic [s_SYS; s_clients; client_str 1; s_graveGoods].
+Definition lw1 := topic [s_SYS; s_clients; client_str 1; s_lastWill].
+Definition gg2 := topic [s_SYS; s_clients; client_str 2; s_graveGoods].
+Example C07_nonvacuous :
+  let ops := [OConnected 1; OConnected 2;
+              OSet 1 gg1 (JArr [JStr [103;47;35]]) false;
+              OSet 1 lw1 (JArr [JArr [JStr [119]; JNum [49]]]) false;
+              OSet 2 gg2 (JArr [JStr [107]]) false;
+              OSet 2 [103;47;120] JNull false; OCSet 2 [119] JNull 0 false; OSet 2 [107] JNull false;
+              ODisconnected 1] in
+  let s := final init ops in
+  do_get s [103;47;120] = RErr E_NoSuchValue /\ do_cget s [119] = RCValue (JNum [49]) 0 /\
+  do_get s [107] = RValue JNull /\ do_get s gg1 = RErr E_NoSuchValue /\
+  do_get s gg2 = RValue (JArr [JStr [107]]).
+Proof. vm_compute. repeat split. Qed.
